@@ -13,7 +13,7 @@ from ..emitlib import SHELLS, lit_order, u2s
 from ..sexp import Q
 
 MANIFEST = dict(
-    text=('Theorems C07_quote_roundtrip / C07_fish_total / C07_zsh_total / C07_bash_outside_backslash_hazard (Props/C07.v): for '
+    text=('Theorems C07_quote_roundtrip / C07_bash_total / C07_fish_total / C07_zsh_total (Props/C07.v): for '
           'every shell, every string outside the shell\'s hazard class (empty for bash, fish and zsh; pwsh: the UTF-8 prefix '
           'E2 80) and every continuation of the script, the independent '
           'transcription of the shell\'s documented double-quote rule (Spec/ShellDQ.v) reads make_string_constant(s) back as '
